@@ -351,7 +351,10 @@ def run(prop, tier, seed, replay=None):
             "axioms per Print Assumptions: " + ("none (closed under the global context) for all %d theorems" % len(pinfo["axioms"]) if pinfo["axioms"] and not any(pinfo["axioms"].values()) else json.dumps(pinfo["axioms"])),
             "translator tools/gen_model.py (Generated/%s.v)" % ",".join(prop.gen_deps) if prop.gen_deps else "no generated tables used",
             "extraction with ExtrOcamlBasic only, ocaml/driver.ml (parsing/printing), Rust harness harness/%s" % prop.harness[0],
-        ] + list(prop.trusted),
+        ] + (["function translator tools/rs2v + tools/gen_fn_*.py (Generated/%s.v re-translated from the Rust functions on every run; Proofs/*Gen.v prove "
+              "translation = hand model; usize + and * modelled unbounded, every other integer operation width-checked; unsafe / fmt plumbing functions "
+              "hand-modelled and pinned by token hash)" % ",".join(g for g in prop.gen_deps if g.endswith("Fn"))] if any(g.endswith("Fn") for g in prop.gen_deps) else [])
+        + list(prop.trusted),
         "theorems": pinfo["theorems"],
         "evaluations": evaluations,
         "distinct_nontrivial": len(nontrivial),
